@@ -48,6 +48,15 @@ PROGRAMS = [
     "from __future__ import division\nfrom Pq import ZK\nimport pa\nprint(ZK / 2, pa.K)\n",
     # D43: a __future__ import whose name is rebound by a later import of the same block
     "from __future__ import annotations\nfrom pa import K as annotations\ndef fn(x: Undefined9 = 1):\n    return x\nprint(fn(), annotations)\n",
+    # D45-D50: reads that the unused-import analysis used to miss
+    "import pa\ndef fn(v=10):\n    match v:\n        case pa.K as y:\n            return y\n    return 0\nprint(fn())\n",
+    "import pa\nimport pb\ndef fn(v=5):\n    match v:\n        case pa.K | pb.n as z:\n            return z\nprint(fn())\n",
+    "import pa\nx = (pa := pa.K)\nprint(x, pa)\n",
+    "import pa\ndef fn(pa=1, y: pa.C = 2):\n    return (pa, y)\nprint(fn())\n",
+    "from pa import f\n__all__ = ['f']\nfrom pb import f\n",
+    'import pa\ndef fn():\n    """\n    >>> import pa; import pa\n    >>> pa.K\n    """\n    return pa.K\nprint(fn())\n',
+    "import pa\ndef fn[T: pa.C](a: T = 1) -> T:\n    return a\nprint(fn())\n",
+    "import pa\nclass G[T: pa.C]:\n    pass\nprint(G)\n",
     # string annotation / f-string uses
     "from pa import C\ndef ann(x: 'C') -> 'C':\n    return x\nprint(ann(1), f'{C().m(1)}')\n",
 ]
